@@ -161,6 +161,12 @@ fn new_message(size: u64, eat: u64) -> Message {
     if bytes == 0 && id % 2 == 0 {
         return Message::default().id(id).kind(eat as u16).with_content(Token::new());
     }
+    if id % 3 == 0 {
+        // the non-clonable way of storing a body must measure the same length
+        let mut m = Message::default().id(id).kind(eat as u16);
+        m.set_content_non_clonable(Payload { bytes, _life: Life::new(2) });
+        return m;
+    }
     Message::default().id(id).kind(eat as u16).with_content(Payload { bytes, _life: Life::new(2) })
 }
 
@@ -227,6 +233,16 @@ impl Scripted {
                 "panic" => {
                     let at = LOG.with(|l| l.borrow().len());
                     PANICS.with(|p| p.borrow_mut().push((self.name.clone(), self.inc, at)));
+                    // three ways for a callback to panic: explicitly, or by asking for something in the past (the API
+                    // must refuse that inside the callback, where the panic is contained and attributed)
+                    let now = SimTime::now();
+                    if now > SimTime::ZERO && self.k % 3 == 1 {
+                        schedule_at(Message::default().id(9998), now - tick());
+                        unreachable!("schedule_at accepted a time in the past")
+                    } else if now > SimTime::ZERO && self.k % 3 == 2 && self.name != "c" {
+                        send_at(Message::default().id(9998), "out", now - tick());
+                        unreachable!("send_at accepted a time in the past")
+                    }
                     panic!("scripted panic")
                 }
                 other => panic!("unknown command {other}"),
